@@ -108,6 +108,12 @@ def judge(ctx, cases, codes, tcases, tres, crashed=(), cres=()):
             seen.add(key)
             found = True
             ctx.violation("%s_%d_h%d" % (what.split("-")[0], c["hseed"], c["height"]), payload(c, k, what))
+    for c in cases:
+        if c.get("twin_diff") and ctx.violations < 5 and ("twin", c["hseed"]) not in seen:
+            seen.add(("twin", c["hseed"]))
+            found = True
+            ctx.violation("restart_%d_h%d" % (c["hseed"], c["height"]),
+                          payload(c, [], "replica-restarted-after-a-release-returns-other-validator-updates-than-the-long-running-node"))
     if not found:
         for c, k in zip(cases, codes):
             if k[0] == 3:
@@ -126,6 +132,20 @@ def hist(xs):
     for x in xs:
         h[str(x)] = h.get(str(x), 0) + 1
     return dict(sorted(h.items()))
+
+
+def released_reelected(cases):
+    """released validators that later get a positive-power update in the same history"""
+    n, rel = 0, {}
+    for c in cases:
+        key = c["hseed"]
+        for k in list(rel.get(key, [])):
+            if any(u["k"] == k and u["v"] > 0 for u in c["ups"]):
+                n += 1
+                rel[key].remove(k)
+        for k in c.get("released") or []:
+            rel.setdefault(key, []).append(k)
+    return n
 
 
 def run(ctx):
@@ -148,8 +168,9 @@ def run(ctx):
         "evaluations": len(cases) + len(tcases), "distinct_nontrivial": distinct,
         "rule": "block cases = blocks of generated whole-application histories (1-12 candidates, top count 1-5, equal / near-equal / distinct "
                 "stakes; stake, unstake (partial, all, down to the minimum +-1), withdraw, allegation + votes, release, absent signers, "
-                "byzantine evidence, Frankenstein change of the staking options) plus directed histories (duplicate key, all unstake, "
-                "stake-then-unstake, early freeze); distinct = distinct (table, options, malicious, last-active, purge) inputs; "
+                "byzantine evidence, two-day time jumps, Frankenstein change of the staking options) plus directed histories (duplicate key, "
+                "all unstake, stake-then-unstake, early freeze, freeze by missed votes or guilty verdict -> wait past the release time -> RELEASE -> "
+                "8+ quiet blocks, with a twin replica restarted after the release); distinct = distinct (table, options, malicious, last-active, purge) inputs; "
                 "validator-set cases = random sets and change lists against the real tendermint ValidatorSet",
         "traces_validated_against_impl": len(cases), "histories": shards * n,
         "validator_set_cases": len(tcases), "validator_set_accepted": sum(1 for t in tcases if t["ok"]),
@@ -172,6 +193,11 @@ def run(ctx):
         "blocks_with_frozen_validator_in_votes_window": sum(1 for c in cases if c["frozen"] and c["height"] <= c["bvd"]),
         "negative_power_monitor[0 ok,1 negative]": hist(k[6] for k in codes),
         "unstake_more_than_record_refused": sum(1 for c in cases for t in (c.get("txs") or []) if "exceeds the stake" in t),
+        "releases_executed": sum(len(c.get("released") or []) for c in cases),
+        "released_validators_re_elected": released_reelected(cases),
+        "freezes_by_missed_votes_or_verdict_blocks": sum(1 for c in cases if c["mal"]),
+        "restart_twin_blocks_compared": sum(1 for c in cases if c["kind"] == "release"),
+        "restart_twin_differences": sum(1 for c in cases if c.get("twin_diff")),
         "convergence_checked_blocks": sum(1 for c in cases if c["quiet"] >= 5 and c["tm_ok"]),
         "record_stake_differs_from_delegation_store": len(own_diff),
         "blocks_where_node_exited[1 negative power record,3 zero total power,2 other]": hist(cres),
